@@ -9,6 +9,15 @@ mod ops;
 
 fn main() {
     let args = parse_args();
+    // Panics inside Lance are caught (catch_unwind) and judged by the checks; keep stderr readable.
+    if !args.extra.contains_key("verbose") {
+        std::panic::set_hook(Box::new(|info| {
+            let loc = info.location().map(|l| format!("{}:{}", l.file(), l.line())).unwrap_or_default();
+            if !loc.contains("/repo/") {
+                eprintln!("harness panic at {loc}: {info}");
+            }
+        }));
+    }
     let code = match args.prop.as_str() {
         "C01" => c01::run(&args),
         "C02" => c02::run(&args),
